@@ -22,7 +22,7 @@ var profiles = map[string]Profile{
 		"totals": 4, "visit": 6, "flush": 6, "evict": 6, "reopen": 3, "setcoll": 3, "obs": 5, "names": 1, "memstore": 1, "private": 1},
 	// C02/C14: durability
 	"durable": {"set": 30, "del": 8, "get": 4, "flush": 12, "evict": 3, "reopen": 6, "setcoll": 4, "removecoll": 2,
-		"obs": 4, "collwrite": 1, "visit": 2},
+		"obs": 4, "collwrite": 1, "visit": 2, "redo": 2},
 	// C06/C13: visits and shapes
 	"visit": {"set": 24, "setrand": 4, "del": 8, "visit": 30, "flush": 4, "evict": 6, "reopen": 3, "obs": 6, "get": 3, "setcoll": 1},
 	// C04/C10: snapshots and handle lifetimes
@@ -30,12 +30,12 @@ var profiles = map[string]Profile{
 		"flush": 4, "evict": 3, "setcoll": 4, "removecoll": 3, "obs": 8, "get": 3, "otheralloc": 5, "reopen": 1, "visit": 3, "collwrite": 2, "oldread": 2},
 	// C08: flush / revert
 	"revert": {"set": 20, "del": 6, "flush": 14, "revert": 10, "reopen": 6, "obs": 6, "setcoll": 3, "removecoll": 1, "get": 2,
-		"collwrite": 3, "writerevert": 3, "delroot": 2},
+		"collwrite": 3, "writerevert": 3, "delroot": 2, "redo": 3},
 	// C12: collection management
 	"colls": {"set": 20, "del": 6, "setcoll": 12, "removecoll": 8, "names": 6, "flush": 6, "reopen": 4, "obs": 8,
 		"snapshot": 2, "snapclose": 2, "get": 4, "evict": 2, "private": 3, "cmpflip": 3},
 	// C11: CopyTo
-	"copy": {"set": 30, "del": 6, "flush": 5, "evict": 4, "reopen": 2, "setcoll": 4, "copyto": 6, "snapshot": 2, "obs": 3, "removecoll": 1},
+	"copy": {"set": 30, "del": 6, "flush": 5, "evict": 4, "reopen": 2, "setcoll": 4, "copyto": 6, "snapshot": 2, "obs": 3, "removecoll": 1, "copycmp": 3},
 	// C19: lazy loading: large values, key-only operations in every cache state
 	"lazy": {"set": 20, "del": 8, "get": 14, "exist": 6, "min": 4, "max": 4, "visit": 12, "len": 3, "totals": 2, "enum": 1,
 		"flush": 8, "evict": 8, "reopen": 6, "obs": 2, "setcoll": 1, "burst": 4},
@@ -470,6 +470,77 @@ func (r *seqRun) step() bool {
 			ok = w.Close(d)
 		}
 		return ok && w.Obs(src, "peek", "C11")
+	case "copycmp":
+		// CopyTo of a collection whose order was installed with SetCollection
+		// (never persisted, no load-time callback): the store CopyTo returns
+		// must answer under that same order (its comparators are copied)
+		o := w.NewMem()
+		if o == nil || !w.SetColl(o, flipName) {
+			return false
+		}
+		if w.revOverride == nil {
+			w.revOverride = map[string]bool{}
+		}
+		w.revOverride[flipName] = !w.isRev(flipName)
+		ok := w.SetColl(o, flipName)
+		for i := 0; ok && i < 3+w.rng.Intn(6); i++ {
+			val, _ := w.U.NewValue(w.rng, false, nil)
+			ok = w.SetKV(o, flipName, r.anyKey(flipName), val, r.prio(), false, nil)
+		}
+		if ok {
+			d := w.CopyTo(o, []int{0, 1, 2, 100}[w.rng.Intn(4)], nil)
+			ok = d != nil
+			if ok {
+				val, _ := w.U.NewValue(w.rng, false, nil)
+				ok = w.Obs(d, "api", "C11") && w.MinMax(d, flipName, false, false, nil) &&
+					w.SetKV(d, flipName, r.anyKey(flipName), val, r.prio(), false, nil) && w.Obs(d, "api", "C11")
+				f := d.File
+				ok = ok && w.Close(d)
+				if ok {
+					w.DropFile(f)
+				}
+			}
+		}
+		ok = ok && w.Close(o)
+		delete(w.revOverride, flipName)
+		return ok
+	case "redo":
+		// set, Flush, FlushRevert, the very same set again (same key, value and
+		// priority: the records land at the same offsets), Flush: the file must
+		// end in a root record for the redone state
+		if m.File == nil || len(r.snaps) > 0 {
+			return true
+		}
+		name, ok := r.existingName(m)
+		if !ok {
+			return true
+		}
+		if !w.Flush(m, nil) {
+			return false
+		}
+		key := r.anyKey(name)
+		val, _ := w.U.NewValue(w.rng, false, nil)
+		prio := r.prio()
+		if !w.SetKV(m, name, key, val, prio, false, nil) || !w.Flush(m, nil) || !w.Revert(m, nil) {
+			return false
+		}
+		if !w.Obs(m, "peek", "C08") {
+			return false
+		}
+		if !w.SetKV(m, name, key, val, prio, false, nil) || !w.Flush(m, nil) {
+			return false
+		}
+		w.Decode(m.File)
+		f := m.File
+		if !w.Close(m) {
+			return false
+		}
+		h := w.Open(f, nil)
+		if h == nil {
+			return false
+		}
+		r.main = h
+		return w.Obs(h, "api", "C02")
 	case "private":
 		// a private (unregistered) collection of the main store: a burst of
 		// sorted-map calls, a complete observation, then it is forgotten.  Not
